@@ -88,11 +88,29 @@ func TestVerifC14Banner(t *testing.T) {
 		if rng.intn(4) == 0 {
 			br.Fields = append(br.Fields, [2]string{"Content-Encoding", []string{"identity", "gzip", "br"}[rng.intn(3)]})
 		}
+		corpus := i < 16
+		if corpus {
+			// corpus: compressed HTML pages requested by a browser, top-level and already framed in each of the three ways
+			br = &bresp{Status: 200, Body: bodies[2]}
+			br.Fields = append(br.Fields, [2]string{"Content-Type", []string{"text/html; charset=utf-8", "application/xhtml+xml"}[i/8]}, [2]string{"Content-Encoding", []string{"gzip", "br"}[i/4%2]}, [2]string{"Vary", "Accept-Encoding"})
+		}
 		br.Fields = append(br.Fields, [2]string{"Set-Cookie", "k=v"}, [2]string{"X-Other", "o"})
 		cur = br
 		method := methods[rng.intn(len(methods))]
-		req := httptest.NewRequest(method, targets[rng.intn(len(targets))], nil)
+		target := targets[rng.intn(len(targets))]
 		acc, mode, dest, ref := accepts[rng.intn(len(accepts))], modes[rng.intn(len(modes))], dests[rng.intn(len(dests))], referers[rng.intn(len(referers))]
+		if corpus {
+			method, target, acc, mode, dest, ref = "GET", targets[3], accepts[2], "", "", ""
+			switch i % 4 {
+			case 0:
+				mode = "nested-navigate"
+			case 1:
+				dest = "iframe"
+			case 2:
+				ref = targets[3]
+			}
+		}
+		req := httptest.NewRequest(method, target, nil)
 		if acc != "" {
 			req.Header.Set("Accept", acc)
 		}
